@@ -1,0 +1,99 @@
+//go:build verif
+// +build verif
+
+package limiter
+
+import (
+	"sync"
+	"time"
+
+	"k8s.io/apimachinery/pkg/util/rand"
+
+	proxyv1alpha1 "github.com/kubewharf/kubegateway/pkg/apis/proxy/v1alpha1"
+	gatewayclientset "github.com/kubewharf/kubegateway/pkg/client/kubernetes"
+	"github.com/kubewharf/kubegateway/pkg/ratelimiter/limiter/controller"
+	"github.com/kubewharf/kubegateway/pkg/ratelimiter/limiter/elector"
+	"github.com/kubewharf/kubegateway/pkg/ratelimiter/options"
+	_interface "github.com/kubewharf/kubegateway/pkg/ratelimiter/store/interface"
+)
+
+// VerifHandle gives a verification harness access to the periodic and
+// leadership-driven entry points of a rateLimiter so they can be stepped
+// deterministically. Verification-only hook (build tag verif).
+type VerifHandle struct {
+	r *rateLimiter
+}
+
+// VerifNewRateLimiter builds the real rateLimiter exactly like NewRateLimiter,
+// but with an injected leader elector and upstream controller (no API server,
+// no informer needed).
+func VerifNewRateLimiter(gatewayClient gatewayclientset.Interface, limitOptions options.RateLimitOptions, leaderElector elector.LeaderElector, upstreamController controller.UpstreamController) (RateLimiter, *VerifHandle) {
+	limiter := &rateLimiter{
+		runId:              rand.String(8),
+		identity:           limitOptions.Identity,
+		shardCount:         limitOptions.ShardingCount,
+		limitOptions:       limitOptions,
+		gatewayClient:      gatewayClient,
+		leaderElector:      leaderElector,
+		clientCache:        NewClientCache(),
+		limitStoreMap:      map[int]_interface.LimitStore{},
+		upstreamLock:       map[string]*sync.Mutex{},
+		upstreamController: upstreamController,
+	}
+	leaderElector.SetCallbacks(elector.LeaderCallbacks{
+		OnStartedLeading: limiter.startLeading,
+		OnStoppedLeading: limiter.stopLeading,
+	})
+	return limiter, &VerifHandle{r: limiter}
+}
+
+func (h *VerifHandle) UpstreamConditionHandler(cluster *proxyv1alpha1.UpstreamCluster) error {
+	return h.r.UpstreamConditionHandler(cluster)
+}
+
+func (h *VerifHandle) StartLeading(shard int) { h.r.startLeading(shard) }
+func (h *VerifHandle) StopLeading(shard int)  { h.r.stopLeading(shard) }
+func (h *VerifHandle) LeaderCheck()           { h.r.leaderCheck() }
+func (h *VerifHandle) CleanupTimeoutClient()  { h.r.cleanupTimeoutClient() }
+func (h *VerifHandle) CleanupUnknownCondition() {
+	h.r.cleanupUnknownCondition()
+}
+
+// SetHeartbeat overwrites the recorded last-heartbeat time of an instance.
+func (h *VerifHandle) SetHeartbeat(instance string, t time.Time) {
+	h.r.clientCache.clientHeartbeats.Store(instance, t)
+}
+
+// Heartbeats returns the recorded instances and their last heartbeat.
+func (h *VerifHandle) Heartbeats() map[string]time.Time {
+	m, _ := h.r.clientCache.AllClients()
+	return m
+}
+
+// Store returns the limit store of a shard, or nil when the shard is not led.
+func (h *VerifHandle) Store(shard int) _interface.LimitStore {
+	return h.r.getLimitStoreForShard(shard)
+}
+
+// Shards returns the shards that currently have a store.
+func (h *VerifHandle) Shards() []int {
+	h.r.limitStoreLock.RLock()
+	defer h.r.limitStoreLock.RUnlock()
+	var out []int
+	for s := range h.r.limitStoreMap {
+		out = append(out, s)
+	}
+	return out
+}
+
+// VerifCalculateNextQuota exposes calculateNextQuota.
+func VerifCalculateNextQuota(
+	upstreamTotal proxyv1alpha1.RateLimitItemConfiguration,
+	upstreamUsed proxyv1alpha1.RateLimitItemStatus,
+	flowControlConfig proxyv1alpha1.RateLimitItemConfiguration,
+	flowControlStatus proxyv1alpha1.RateLimitItemStatus,
+	clientCount int,
+	condition *proxyv1alpha1.RateLimitCondition,
+) proxyv1alpha1.RateLimitItemConfiguration {
+	return calculateNextQuota(upstreamTotal, upstreamUsed, flowControlConfig, flowControlStatus, clientCount, condition)
+}
